@@ -24,7 +24,7 @@ REG = dict(
 
 def run(tier, seed):
     return generic.run_spec("C22", tier, seed, STEPS, RULE,
-                            required=["read_syscalls", "write_syscalls", "windows_judged", "bev_bucket_epochs", "group_bucket_epochs",
+                            required=["read_syscalls", "group_cfg_reapplied_in_debt", "write_syscalls", "windows_judged", "bev_bucket_epochs", "group_bucket_epochs",
                                       "buckets_limit_was_binding", "progress_checks", "manual_decrements", "manual_refills", "group_joins",
                                       "group_leaves", "max_single_set", "peer_stalls"],
                             assumptions=["ticks are those of ev_token_bucket_get_tick_ (whole milliseconds of the wall clock divided by the tick length)"])
